@@ -208,7 +208,7 @@ def w_fixed_image(pid, tier, seed, job):
         with R.TempImage(img) as path:
             export_confined(ctx, path, case)
     else:
-        fn = ["FX", "FX.WAV", "KICK.WAV", "KICK", "A.WAV L", "A.WAV R"]
+        fn = ["FX", "FX.WAV", "KICK.WAV", "KICK", "A.WAV L", "A.WAV R", "BRASS SEC.-L", "BRASS SEC.-R", "BRASS SEC", "ORG. L", "ORG. R"]
         files = [AW.SampleFile(name=f, pcm=struct.pack("<4h", i, i, i, i)) for i, f in enumerate(fn)]
         img = AW.image_bytes([AW.Partition([AW.Volume("V.WAV", files), AW.Volume("V", files[:2])], size_sectors=48)])
         case = {"kind": "akai", "volumes": [("V.WAV", fn), ("V", fn[:2])], "d6_shape": False}
